@@ -5,5 +5,5 @@ CONSTANTS
   Vals = {0, 1, 2}
 SPECIFICATION Spec
 INVARIANT FrozenForever
-PROPERTIES NoResume CounterPersists
+PROPERTIES NoResume CounterPersists IterationIndex MuFixed
 CHECK_DEADLOCK FALSE
